@@ -13,6 +13,11 @@ STD_PROG = {"opts": [{"names": "a aa", "flag": True}, {"names": "b", "flag": Tru
             "args": ["X", "Y"]}
 
 
+# a second program: a long-only flag, a valued option with three names, names with digits and underscores
+PROG2 = {"opts": [{"names": "verbose", "flag": True}, {"names": "s src source", "flag": False}, {"names": "q", "flag": True}],
+         "args": ["SRC1", "DST_2"]}
+
+
 def opt_key(names):
     n = names.split()[0]
     return ("-" if len(n) == 1 else "--") + n
@@ -192,11 +197,20 @@ def curated(p=STD_PROG):
     ]
 
 
+def curated2():
+    V, S, Q = Opt("--verbose"), Opt("-s"), Opt("-q")
+    A, B = Arg("SRC1"), Arg("DST_2")
+    ALL = Grp(["--verbose", "-s", "-q"], all_=True)
+    return [Seq(Optional(V), Optional(S), A, Rep(B)), Seq(Optional(ALL), A), Seq(Grp(["-q", "-s"]), A), Seq(Rep(Alt(V, Q)), B),
+            Seq(Optional(Rep(S)), Optional(A)), Seq(V, S, Q), Seq(Optional(Seq(S, V)), Rep(A), B), Seq(Optional(ALL), End(), Rep(A)),
+            Seq(Rep(Optional(ALL)), Optional(A)), Seq(Alt(Seq(Q, A), Seq(S, B)))]
+
+
 def family(p, n_random, seed, depth=3, with_end=True, want=None):
     """curated + n_random random specs; distinct by rendered string. Returns list of dict(ast,str)."""
     rnd = random.Random(seed)
     out, seen = [], set()
-    cand = list(curated(p)) if p is STD_PROG or p == STD_PROG else []
+    cand = list(curated(p)) if p == STD_PROG else (curated2() if p == PROG2 else [])
     tries = 0
     while len(out) < len(cand) + n_random and tries < 100000:
         if tries < len(cand):
